@@ -389,6 +389,25 @@ fn string_from_utf8''')]},
      'edits': [(VM, "            Ok(s) => s,\n            Err(e) => {\n                return self.try_handle_error(e);\n            }\n        };\n\n        let function = match compiler::compile", "            Ok(s) => s,\n            Err(e) => {\n                return Err(e);\n            }\n        };\n\n        let function = match compiler::compile")]},
     {'name': 'M3 compile failure of a module reported as RuntimeError', 'prop': 'C14', 'expect': 'M3 / errors built in start_import_impl',
      'edits': [(VM, 'let mut error = error!(ErrorKind::ImportError, "Error compiling module:");', 'let mut error = error!(ErrorKind::RuntimeError, "Error compiling module:");')]},
+    # ---- C03 ----------------------------------------------------------------------------------------
+    {'name': 'T1 parse returns the function when only warnings-like errors were recorded', 'prop': 'C03', 'expect': 'T1 / parse: Ok only behind',
+     'edits': [(COMP, "        let had_error = !self.errors.borrow().is_empty();\n        if had_error {", "        let had_error = self.errors.borrow().len() > 1;\n        if had_error {")]},
+    {'name': 'T1 error_at drops the message while entering panic mode', 'prop': 'C03', 'expect': 'T1 / error_at: setting panic mode is followed by recording',
+     'edits': [(COMP, "        write!(error_string, \": {}\", message).unwrap();\n        self.errors.borrow_mut().push(error_string);", "        write!(error_string, \": {}\", message).unwrap();\n        if token.kind != TokenKind::Error {\n            self.errors.borrow_mut().push(error_string);\n        }")]},
+    {'name': 'T2 unexpected characters are reported without being consumed', 'prop': 'C03', 'expect': 'T2 / scan_token: every path advances',
+     'edits': [(SCAN, "        let c = self.advance();\n\n        if is_alpha(c) {", "        let c = self.peek();\n        if c == \"@\" {\n            return self.error_token(\"Unexpected character: '@'.\");\n        }\n        let c = self.advance();\n\n        if is_alpha(c) {")]},
+    {'name': 'T2 synchronise stops advancing on a class keyword inside the loop', 'prop': 'C03', 'expect': 'T2 / Parser::synchronise',
+     'edits': [(COMP, "                TokenKind::Return => return,\n                _ => {}\n            }\n\n            self.advance();", "                TokenKind::Return => return,\n                TokenKind::Else => continue,\n                _ => {}\n            }\n\n            self.advance();")]},
+    {'name': 'T3 DotDot loses its infix handler but keeps its precedence', 'prop': 'C03', 'expect': 'T3 / RULES[DotDot]',
+     'edits': [(COMP, "        infix: Some(Parser::dotdot),", "        infix: None,")]},
+    {'name': 'T3 a rule is missing from the table', 'prop': 'C03', 'expect': 'T3 / RULES has',
+     'edits': [(COMP, "const RULES: [ParseRule; 72] = [\n    // LeftParen\n    ParseRule {\n        prefix: Some(Parser::grouping),\n        infix: Some(Parser::call),\n        precedence: Precedence::Call,\n    },\n",
+                "const RULES: [ParseRule; 71] = [\n")]},
+    {'name': 'T4 too many constants silently wrap', 'prop': 'C03', 'expect': 'T4 / compiler::Parser::<\'a>::make_constant',
+     'edits': [(COMP, "        if constant > u16::MAX as usize {\n            self.error(\"Too many constants in one chunk.\");\n            return 0;\n        }", "        if constant > u16::MAX as usize {\n            return (constant % 65536) as u16;\n        }")]},
+    {'name': 'T5 new recursive helper in the scanner', 'prop': 'C03', 'expect': 'T5 / cycle: skip_nested_comment',
+     'edits': [(SCAN, "    fn binary_token(&mut self,", "    fn skip_nested_comment(&mut self) {\n        while !self.is_at_end() {\n            let c = self.advance().to_owned();\n            if c == \"{\" {\n                self.skip_nested_comment();\n            } else if c == \"}\" {\n                return;\n            }\n        }\n    }\n\n    fn binary_token(&mut self,"),
+               (SCAN, "                \"\\r\" => {\n                    self.advance();\n                }", "                \"\\r\" => {\n                    self.advance();\n                }\n                \"`\" => {\n                    self.skip_nested_comment();\n                }")]},
 ]
 
 BENIGN = [
